@@ -11,9 +11,11 @@ import (
 	"fmt"
 	"os"
 	"path/filepath"
+	"runtime"
 	"sort"
 	"strconv"
 	"strings"
+	"sync/atomic"
 	"testing"
 	"time"
 
@@ -26,6 +28,7 @@ type Violation struct {
 	Key      string `json:"key"`    // violation class; matched against known findings
 	Detail   string `json:"detail"` // human readable
 	NoShrink bool   `json:"-"`      // cannot be re-observed in this process (race reports)
+	Record   []byte `json:"-"`      // the record to save as replay, if not the one being executed
 }
 
 // Outcome is what executing one Record produced.
@@ -145,6 +148,35 @@ type state struct {
 	lastViol Violation
 	inShrink bool
 	execN    int
+
+	execStart atomic.Int64
+	curRec    atomic.Value
+	start     time.Time
+}
+
+// watchdog: a single execution that exceeds the cap is reported as inconclusive (a hang
+// is not a violation of the properties claimed here); the process saves the record and
+// its goroutine stacks and ends, so that the other workers' evidence stays usable.
+func (s *state) watchdog(limit time.Duration) {
+	for {
+		time.Sleep(2 * time.Second)
+		st := s.execStart.Load()
+		if st == 0 || time.Since(time.Unix(0, st)) < limit {
+			continue
+		}
+		if rec := s.curRec.Load(); rec != nil {
+			if b, err := json.Marshal(rec); err == nil {
+				os.WriteFile(filepath.Join(s.outDir, "watchdog-record.json"), b, 0o644)
+			}
+		}
+		buf := make([]byte, 1<<20)
+		n := runtime.Stack(buf, true)
+		os.WriteFile(filepath.Join(s.outDir, "watchdog-stacks.txt"), buf[:n], 0o644)
+		s.part.Inconclusive["watchdog_execution_cap"]++
+		fmt.Printf("WATCHDOG: one execution exceeded %v; record saved, worker stops (inconclusive)\n", limit)
+		s.writePart(s.start)
+		os.Exit(0)
+	}
 }
 
 func envInt(k string, d int64) int64 {
@@ -265,7 +297,10 @@ func (s *state) isKnown(v Violation) bool {
 // run executes rec (already decoded) and classifies; returns the first unknown violation.
 func (s *state) run(rec any, counting bool) (*Outcome, *Violation) {
 	s.execN++
+	s.execStart.Store(time.Now().UnixNano())
+	s.curRec.Store(rec)
 	out := s.eng.Exec(rec)
+	s.execStart.Store(0)
 	if rep, ok := s.raceGrowth(); ok {
 		key, harnessOnly := raceKey(rep)
 		if harnessOnly {
@@ -381,6 +416,9 @@ func (s *state) minimise(recJSON []byte, v Violation) ([]byte, Violation) {
 }
 
 func (s *state) recordViolation(recJSON []byte, v Violation) {
+	if v.Record != nil {
+		recJSON = v.Record
+	}
 	recJSON, v = s.minimise(recJSON, v)
 	path := s.saveReplay(recJSON, v)
 	s.part.Violations = append(s.part.Violations, PartViolation{v, path})
@@ -436,6 +474,8 @@ func Main(t *testing.T, e *Engine) {
 		}
 	}
 	defer s.writePart(start)
+	s.start = start
+	go s.watchdog(time.Duration(envInt("VERIF_EXEC_CAP_S", 60)) * time.Second)
 
 	if rf := os.Getenv("VERIF_REPLAY"); rf != "" {
 		b, err := os.ReadFile(rf)
@@ -558,6 +598,19 @@ func Main(t *testing.T, e *Engine) {
 		})
 		done += n
 	}
+}
+
+// LateViolation lets an engine report a violation found after the last record (e.g. by a
+// batched cross-process comparison flushed at the end).
+func LateViolation(v Violation) {
+	if cur == nil {
+		return
+	}
+	if cur.isKnown(v) {
+		cur.part.Known[v.Key]++
+		return
+	}
+	cur.recordViolation(v.Record, v)
 }
 
 // SortedKeys returns the keys of a map in ascending order (the harness never ranges a map
